@@ -11,7 +11,9 @@
              method, validation error, each fault class raised by user code, success with a plain /
              generator / user-supplied lazy or sized out_string, serialisation failure), and transport-level
              listeners that replace the outgoing stream: `wsgi_return` (any new chunking, sized or lazy)
-             and `wsgi_exception` (any new chunk list)
+             and `wsgi_exception` (any new chunk list); a synchronous auxiliary method bound to the
+             called one (ok / Fault / non-Fault in its user code / unserialisable response, with or
+             without `process_exceptions`); response headers the user function sets (str / list / tuple)
     stream — an adversarial `wsgi.input`: the i-th read(n) returns min n aᵢ bytes, then EOF
     abort  — `none`: the server takes the whole body; `some k`: it stops after k chunks; either way it
              then calls close() on the iterable
@@ -24,7 +26,8 @@ open SpyneModel SpyneModel.Wsgi SpyneModel.Generated
 
 /-! ### the facts of /repo (T1) -/
 
-/-- the eight behaviour switches measured on /repo have their good values: the context is finalised by
+/-- the ten behaviour switches measured on /repo have their good values (the last two: the auxiliary
+    run after `start_response` is guarded against every exception, in `handle_rpc` and `handle_error`): the context is finalised by
     the response iterable (rpc and ?wsdl), chunks are joined as bytes, a non-numeric CONTENT_LENGTH
     and an empty Soap11 body are faults, `next(g)` on a generator result is guarded, and the
     `wsgi_return` / `wsgi_exception` events fire before the transport measures the outgoing stream -/
@@ -71,16 +74,7 @@ theorem status_line (cfg : Cfg) (req : Req) (stream : List Nat) (abort : Option 
     (s : Nat) (f : Option FaultClass) (c : Option Nat)
     (hm : Ev.startResponse s f c ∈ handle facts13 cfg req stream abort) : 100 ≤ s ∧ s ≤ 599 := by
   obtain ⟨pre, o, h, hr, hw⟩ := handle_answered facts13 cfg req stream abort facts_good
-  have hs : s = o.status := by
-    have hm' := hm
-    rw [h.eq, deliver_after _ _ h.timing] at hm'
-    simp only [List.mem_append, List.mem_cons] at hm'
-    rcases hm' with hm' | hm' | hm' | hm' | hm'
-    · have := h.pre _ hm'; simp [isPre, isRead, isUser] at this
-    · injection hm' with h1 _ _
-    · cases hm'
-    · obtain ⟨_, _, h1, _⟩ := mem_chunkEvs hm'; cases h1
-    · cases hc : o.closes <;> simp [hc, finalEvs] at hm'
+  have hs : s = o.status := h.start_of s f c hm
   subst hs
   cases hwk : req.wsdl with
   | some k =>
@@ -143,9 +137,10 @@ theorem return_event_after_length_breaks_content_length (F : Facts13)
   ⟨⟨false, 100, 7⟩,
    { wsdl := none, soapOut := false, soapIn := false, preReject := false, readsBody := false,
      contentLength := none, docLen := 0, faultLen := 9,
-     intended := .success ⟨none, .notGen, false, [5], true⟩, onReturn := some ⟨[2], true⟩, onException := none },
-   5, by simp [handle, process, intendedResult, afterUser, withReturnListener, successOut, hb, ht, hj, finish, deliver,
-     sum, chunkEvs, taken, finalEvs, bodyBytes]⟩
+     intended := .success ⟨none, .notGen, false, [5], true⟩, onReturn := some ⟨[2], true⟩, onException := none,
+     aux := .none, auxOnErrors := false, userHeaders := [] },
+   5, by simp [handle, process, intendedResult, afterUser, withAux, withReturnListener, successOut, hb, ht, hj, finish,
+     deliver, auxEvs, hdrEvs, hdrEvsFrom, sum, chunkEvs, taken, finalEvs, bodyBytes]⟩
 
 /-- with `chunked=False` every rpc answer carries a Content-Length -/
 theorem unchunked_sends_content_length (cfg : Cfg) (req : Req) (stream : List Nat) (abort : Option Nat)
@@ -155,7 +150,7 @@ theorem unchunked_sends_content_length (cfg : Cfg) (req : Req) (stream : List Na
   obtain ⟨_, ho, _, _⟩ := hr hw
   obtain ⟨n, hn⟩ := process_unchunked_cl facts13 cfg req stream o facts_good hc ho
   refine ⟨o.status, o.fault, n, ?_⟩
-  rw [h.eq, deliver_after _ _ h.timing, hn]
+  rw [h.eq, deliver_after _ _ h.timing h.noEscape, hn]
   simp
 
 /-- a server that stops after `k` chunks is handed at most `k` chunks -/
@@ -163,6 +158,50 @@ theorem abort_respected (cfg : Cfg) (req : Req) (stream : List Nat) (k : Nat) :
     List.countP isChunk (handle facts13 cfg req stream (some k)) ≤ k := by
   obtain ⟨pre, o, h, _, _⟩ := handle_answered facts13 cfg req stream (some k) facts_good
   exact h.abort_respected k
+
+/-- "string headers": every `(name, value)` pair given to `start_response` that stems from a header the
+    user function stored — as a string, a list or a tuple of strings — carries a native string
+    (`_gen_http_headers` expands lists and tuples alike; Content-Type / Content-Length are strings by
+    construction) -/
+theorem headers_are_strings (cfg : Cfg) (req : Req) (stream : List Nat) (abort : Option Nat)
+    (k : Nat) (b : Bool) (h : Ev.hdr k b ∈ handle facts13 cfg req stream abort) : b = true :=
+  hdr_str facts13 (by decide) cfg req stream abort k b h
+
+/-- a header with a tuple (or list) of n values reaches `start_response` as n string pairs -/
+theorem multi_valued_headers_expand (k n : Nat) :
+    hdrPairs facts13 k (.tuple n) = List.replicate n (.hdr k true) ∧
+    hdrPairs facts13 k (.list n) = List.replicate n (.hdr k true) := by
+  have hb : facts13.headerTuplesExpanded = true := by decide
+  simp [hdrPairs, hb]
+
+/-! ### auxiliary methods -/
+
+/-- a synchronous auxiliary method runs at most once, after `start_response` and before the callable
+    hands its iterable over; whatever it does — Fault, any other exception in its user code, a response
+    that cannot be serialised — the theorems of this file hold unchanged (they quantify over `req.aux`):
+    in particular `never_crashes`, `start_response_exactly_once`, `context_closed_once_after_body` -/
+theorem aux_runs_between_start_response_and_handover (cfg : Cfg) (req : Req) (stream : List Nat)
+    (abort : Option Nat) :
+    List.countP isAux (handle facts13 cfg req stream abort) ≤ 1 ∧
+    noneBefore isAux isStart (handle facts13 cfg req stream abort) = true ∧
+    noneAfter isAux isReturned (handle facts13 cfg req stream abort) = true := by
+  obtain ⟨pre, o, h, _, _⟩ := handle_answered facts13 cfg req stream abort facts_good
+  exact h.aux_between
+
+/-- why the guard facts matter (any `F`): with a guard that lets a non-Fault exception through, an
+    auxiliary method whose response cannot be serialised makes the callable raise after
+    `start_response`: nothing is handed over and the request context is never closed -/
+theorem aux_guard_that_is_not_catch_all_breaks_the_response (F : Facts13) (hg : F.auxGuardOk = false)
+    (hj : F.joinKind = .bytes) :
+    ∃ (cfg : Cfg) (req : Req),
+      handle F cfg req [] none = [.user, .startResponse F.okStatus none (some 5), .aux, .crash "TypeError"] :=
+  ⟨⟨false, 100, 7⟩,
+   { wsdl := none, soapOut := false, soapIn := false, preReject := false, readsBody := false,
+     contentLength := none, docLen := 0, faultLen := 9,
+     intended := .success ⟨none, .notGen, false, [5], true⟩, onReturn := none, onException := none,
+     aux := .serFail, auxOnErrors := false, userHeaders := [] },
+   by simp [handle, process, intendedResult, afterUser, withAux, withReturnListener, successOut, hg, hj, finish,
+     deliver, auxEvs, hdrEvs, hdrEvsFrom, sum]⟩
 
 /-! ### the request-size limit -/
 
@@ -223,7 +262,7 @@ theorem too_long_refused_partial (cfg : Cfg) (req : Req) (stream : List Nat) (ab
   have ht : facts13.closeTiming = .afterBody := by decide
   have he : facts13.errorEventBeforeLength = true := by decide
   simp [handle, hw, process_declared_over facts13 cfg req stream d hp hb hd h, finish, errorOut, deliver, ht,
-    finalEvs, errLen, he]
+    finalEvs, errLen, he, hdrEvs, auxEvs]
 
 /-- consequence: no read, no user code -/
 theorem too_long_reads_nothing_runs_nothing (cfg : Cfg) (req : Req) (stream : List Nat) (abort : Option Nat) (d : Int)
@@ -250,7 +289,8 @@ theorem undeclared_overlong_body_is_truncated :
   ⟨⟨true, 10, 8192⟩,
    { wsdl := none, soapOut := false, soapIn := false, preReject := false, readsBody := true,
      contentLength := none, docLen := 10, faultLen := 50,
-     intended := .success ⟨none, .notGen, false, [4], true⟩, onReturn := none, onException := none },
+     intended := .success ⟨none, .notGen, false, [4], true⟩, onReturn := none, onException := none,
+     aux := .none, auxOnErrors := false, userHeaders := [] },
    [15], by decide⟩
 
 /-- the user function is entered only for a document that calls it, at most once, and — when the
@@ -263,10 +303,10 @@ theorem user_code_needs_complete_document (cfg : Cfg) (req : Req) (stream : List
       req.docLen ≤ bytesGot (handle facts13 cfg req stream abort) ∧
       ∀ d, declaredLength cfg req.contentLength = some d → d ≤ (cfg.maxLen : Int)) := by
   have hu' : Ev.user ∈ (process facts13 cfg req stream).1 := by
-    simp only [handle, hw, List.mem_append] at hu
-    rcases hu with hu | hu
+    rw [handle_rpc_eq _ _ _ _ _ hw] at hu
+    rcases List.mem_append.1 hu with hu | hu
     · exact hu
-    · exact absurd (isRead_finish _ _ _ hu).2 (by simp [isUser])
+    · exact absurd (tail_noread _ _ _ _ _ hu).2 (by simp [isUser])
   obtain ⟨h1, h2, h3⟩ := process_user facts13 cfg req stream hu'
   refine ⟨h1, h2, fun hb => ?_⟩
   obtain ⟨hpos, hdoc, hdecl⟩ := h3 hb
@@ -278,11 +318,12 @@ theorem user_code_at_most_once (cfg : Cfg) (req : Req) (stream : List Nat) (abor
     List.countP isUser (handle facts13 cfg req stream abort) ≤ 1 := by
   have hz : ∀ l : List Ev, (∀ e ∈ l, isUser e = false) → List.countP isUser l = 0 := by
     intro l hl; rw [List.countP_eq_zero]; intro e he; simp [hl e he]
-  unfold handle
-  split
-  · rw [hz _ (fun e he => (isRead_deliver _ _ e he).2)]; omega
-  · show List.countP isUser ((process facts13 cfg req stream).1 ++ finish (process facts13 cfg req stream).2 abort) ≤ 1
-    rw [List.countP_append, hz _ (fun e he => (isRead_finish _ _ e he).2)]
+  cases hw : req.wsdl with
+  | some k =>
+    simp only [handle, hw]
+    rw [hz _ (fun e he => (isRead_deliver _ _ e he).2.1)]; omega
+  | none =>
+    rw [handle_rpc_eq _ _ _ _ _ hw, List.countP_append, hz _ (fun e he => (tail_noread _ _ _ _ e he).2)]
     exact countP_user_process facts13 cfg req stream
 
 /-! ### the request context -/
@@ -320,7 +361,7 @@ theorem wsdl_conformance (cfg : Cfg) (req : Req) (stream : List Nat) (len : Nat)
     (req.wsdl = some .buildError → handle facts13 cfg req stream none =
       [.startResponse 500 none none, .returned, .chunk 25 true, .ctxClosed]) := by
   refine ⟨?_, ?_, ?_⟩ <;> intro h <;>
-    simp [handle, h, deliver, wsdlOut, facts13, chunkEvs, taken, finalEvs]
+    simp [handle, h, deliver, wsdlOut, facts13, chunkEvs, taken, finalEvs, auxEvs]
 
 /-! ### non-vacuity: the hypotheses above are satisfiable and the model is not trivial -/
 
@@ -328,7 +369,8 @@ def exCfg : Cfg := ⟨true, 100, 7⟩
 def exReq : Req :=
   { wsdl := none, soapOut := false, soapIn := false, preReject := false, readsBody := true,
     contentLength := some "20".toList, docLen := 20, faultLen := 30,
-    intended := .success ⟨none, .yields, false, [1, 2, 3], true⟩, onReturn := none, onException := none }
+    intended := .success ⟨none, .yields, false, [1, 2, 3], true⟩, onReturn := none, onException := none,
+     aux := .none, auxOnErrors := false, userHeaders := [] }
 
 example : handle facts13 exCfg exReq [5, 100, 100, 100] (some 2) =
     [.read 7 5, .read 7 7, .read 7 7, .read 1 1, .user, .startResponse 200 none (some 6), .returned,
@@ -352,6 +394,16 @@ example : handle facts13 exCfg { exReq with onReturn := some ⟨[2], true⟩ } [
 example : handle facts13 ⟨false, 100, 7⟩ { exReq with onReturn := some ⟨[1, 1], false⟩ } [100, 100, 100] none =
     [.read 7 7, .read 7 7, .read 6 6, .user, .startResponse 200 none (some 2), .returned, .chunk 2 true,
      .ctxClosed, .wsgiClose] := by decide +kernel
+-- an auxiliary method whose response cannot be serialised, and user-set headers (str, tuple of 2, empty list)
+example : handle facts13 exCfg { exReq with aux := .serFail, userHeaders := [.str, .tuple 2, .list 0] } [100, 100, 100] (some 1) =
+    [.read 7 7, .read 7 7, .read 6 6, .user, .hdr 0 true, .hdr 1 true, .hdr 1 true,
+     .startResponse 200 none (some 6), .aux, .returned, .chunk 1 true, .ctxClosed, .wsgiClose] := by decide +kernel
+-- on the error path the auxiliary method runs only with process_exceptions
+example : handle facts13 exCfg { exReq with intended := .userFault .client none, aux := .serFail, auxOnErrors := true } [100, 100, 100] none =
+    [.read 7 7, .read 7 7, .read 6 6, .user, .startResponse 400 (some .client) (some 30), .aux, .returned, .chunk 30 true,
+     .ctxClosed, .wsgiClose] := by decide +kernel
+example : Ev.aux ∉ handle facts13 exCfg { exReq with intended := .userFault .client none, aux := .ok } [100, 100, 100] none := by
+  decide +kernel
 -- a non-numeric CONTENT_LENGTH is a Client fault
 example : handle facts13 exCfg { exReq with contentLength := some "abc".toList } [200] none =
     [.startResponse 400 (some .client) (some 30), .returned, .chunk 30 true, .ctxClosed, .wsgiClose] := by
